@@ -21,6 +21,7 @@ RULE = (
     "{1,2,3,4,5,6,7,8,12,16,48,64,192,1000}), streams decoded from generated texts and corpus charts, the empty "
     "stream; non-trivial when the stream has >= 2 notes; distinct by canonical JSON."
     ' Round 5: one stream with a beat of denominator 1000003.'
+    ' Round 6: columns (and notes) passed by keyword.'
 )
 ASSUMPTIONS = ["the scanner's notion of measure/row (split on '&', ',', lines) is the documented text format"]
 MONITORS = ["readback", "structure", "fixed_point"]
